@@ -118,14 +118,14 @@ def run_real(chk, lines, ffs):
         finally:
             map_input.MappingDirector = orig
     except Exception as e:   # every exception is a rejection
-        return 'error', None, type(e).__name__
+        return 'error', None, None, type(e).__name__
     keys = []
     for f, d1 in out.items():
         for t, d2 in d1.items():
             for n, m in d2.items():
                 idx = [i for i, x in enumerate(emitted) if x is m]
                 keys.append([f, t, list(n), idx[0] if idx else -1])
-    return enc([[dump_mapping(chk, m) for m in emitted], keys]), emitted, None
+    return enc([[dump_mapping(chk, m) for m in emitted], keys]), emitted, keys, None
 
 
 # ----------------------------------------------------------------------------------------------
@@ -476,8 +476,12 @@ def inject(rng, secs, fault):
         if not free:
             return None
         rn = free[0]
+        # an atom name that no node declared so far has (a modification identifier carries no resname)
+        fresh = [a for a, _, _ in coll[rn] if all(n['atomname'] != a for n in s.nodes['from'])]
+        if not fresh:
+            return None
         subs[idx('from blocks')[0]][1].append(rn)      # implicit resid 1, merged resid > 1
-        subs[mi][1].append('%s:%s %s' % (rn, coll[rn][0][0], tref))
+        subs[mi][1].append('%s:%s %s' % (rn, fresh[0], tref))
     elif fault == 'self_edge':
         subs.insert(mi, ('from edges', ['%s %s' % (fref, fref)]))
     elif fault == 'bad_reference':
@@ -596,6 +600,8 @@ def run_generated(chk, ask, ffs):
         if mode == 'valid' and k > 0.85:
             mode = 'mutant'      # no expectation: the model must still agree with the code
             for _ in range(rng.randint(1, 2)):
+                if not lines:
+                    break
                 j = rng.randrange(len(lines))
                 what = rng.random()
                 if what < 0.4:
@@ -609,13 +615,22 @@ def run_generated(chk, ask, ffs):
     reqs = [line('mapping', 'read', lib, c[3]) for c in cases]
     models = ask(reqs)
     for i, ((mode, fault, secs, lines), ln, mo) in enumerate(zip(cases, reqs, models)):
-        im, emitted, exc = run_real(chk, lines, ffs)
+        im, emitted, keys, exc = run_real(chk, lines, ffs)
         errs = []
         if mode == 'valid':
             if emitted is None:
                 errs.append('valid file rejected (%s)' % exc)
             else:
                 errs += oracle(secs, emitted)
+                # read_mapping_file: one entry per (ff_from, ff_to, names), holding the LAST such section
+                want = {}
+                for si, s in enumerate(secs):
+                    want[(s.ff['from'], s.ff['to'], tuple(s.names))] = si
+                got = {(f, t, tuple(n)): i for f, t, n, i in keys}
+                if got != want:
+                    errs.append('read_mapping_file holds %r, declared %r' % (got, want))
+                if len(want) < len(secs):
+                    chk.count('mapping_key_collision')
         elif mode == 'fault':
             if emitted is not None:
                 errs.append('fault %s: the reader did not raise' % fault)
@@ -648,7 +663,7 @@ def run_shipped(chk, ask):
         meta.append((path, ls))
     for (path, ls), mo in zip(meta, ask(reqs)):
         rel = os.path.relpath(path, data)
-        im, emitted, exc = run_real(chk, ls, known)
+        im, emitted, _keys, exc = run_real(chk, ls, known)
         errs = []
         if emitted is None:
             errs.append('shipped mapping file %s rejected (%s)' % (rel, exc))
